@@ -226,7 +226,7 @@ parseinit(struct scope *s, struct type *t)
 	p.last = &p.init;
 	if (t->incomplete && t->kind != TYPEARRAY)
 		error(&tok.loc, "initializer specified for incomplete type");
-	if (t->kind == TYPEARRAY && t->base->size == 0)
+	if (t->kind == TYPEARRAY && (t->base->size == 0 || t->prop & PROPVM && !t->incomplete && t->size == 0))
 		error(&tok.loc, "initializer specified for variable length array type");
 	for (;;) {
 		if (p.cur) {
